@@ -29,6 +29,9 @@ func toStringKeyMap(v any) any {
 		return convertSlice(v)
 	case map[any]any:
 		return convertKeyToString(v)
+	case nil:
+		// YAML 的 null 与 JSON 的 null 等价，不能变成空字符串
+		return nil
 	case bool, string:
 		return v
 	case int, uint, int8, uint8, int16, uint16, int32, uint32, int64, uint64, float32, float64:
